@@ -9,6 +9,7 @@ package syntax
 import (
 	"bytes"
 	"errors"
+	"fmt"
 	"sort"
 	"strings"
 )
@@ -164,8 +165,17 @@ func init() {
 	mmErrorVerbose = true
 }
 
-func yaccParseAny(src []byte, file *SourceFile, intern *stringIntern) (int, mmLexError) {
-	lexinfo := mmLexError{
+func yaccParseAny(src []byte, file *SourceFile, intern *stringIntern) (result int, lexinfo mmLexError) {
+	// The grammar actions panic on token content they cannot represent
+	// (numeric literals out of range, an empty stage src).  Report those
+	// as parse errors at the current location rather than crashing.
+	defer func() {
+		if r := recover(); r != nil {
+			lexinfo.info.err = fmt.Sprint(r)
+			result = 1
+		}
+	}()
+	lexinfo = mmLexError{
 		info: mmLexInfo{
 			src: src,
 			pos: 0,
@@ -177,7 +187,7 @@ func yaccParseAny(src []byte, file *SourceFile, intern *stringIntern) (int, mmLe
 			intern: intern,
 		},
 	}
-	result := mmParse(&lexinfo.info)
+	result = mmParse(&lexinfo.info)
 	if result == 0 {
 		lexinfo.info.global.comments = lexinfo.info.comments
 		lexinfo.info.global.comments = compileComments(
